@@ -102,7 +102,7 @@ func c16Judge(c *hx.Ctx, blob []byte, signer *x509.Certificate, label string, pr
 		c    *x509.Certificate
 		want bool
 	}{{"signer's certificate", signer, true}, {"another certificate", keys.C(2), false}, {"same issuer+serial, other key", samePlate(signer), false},
-		{"same issuer+serial, 4096-bit key", samePlateK(signer, 4), false}, {"same issuer+serial, 2047-bit key", samePlateK(signer, 6), false}}
+		{"same issuer+serial, key of another size", samePlatesOtherSizes(signer)[0], false}, {"same issuer+serial, key of a third size", samePlatesOtherSizes(signer)[1], false}}
 	for _, ct := range certs {
 		var ok bool
 		if pn := hx.Try(func() { ok, err = p.Verify(ct.c) }); pn != nil {
@@ -163,6 +163,11 @@ func c16Judge(c *hx.Ctx, blob []byte, signer *x509.Certificate, label string, pr
 		}
 		sum := sha256.Sum256(signed)
 		_ = sum
+	}
+	// a value parsed from a private copy of the bytes is the caller's to overwrite; later cases and the
+	// library's package-level state must not notice
+	if p3, e3 := pkcs7.ParsePKCS7(append([]byte{}, blob...)); e3 == nil {
+		scribbleResult(p3)
 	}
 	c.Outcome("third-party-ok")
 	c.Nontrivial(blob)
